@@ -6,7 +6,7 @@ Check C07_rec_sound : forall comp lim,
   to_prog comp (0, 0) = Some (1, true, 1) ->
   match quick_term_or_rec comp lim with
   | RLimit => True
-  | RRecur => never_halts (to_prog comp) init_config
+  | RRecur => never_halts (to_prog comp) init_config /\ never_spins_out (to_prog comp) init_config
   | RSpinout => exists n, spins_out_at (to_prog comp) init_config n
   | RUndefined sl => exists n, halts_at (to_prog comp) init_config n sl
   end.
